@@ -116,11 +116,13 @@ func (t *tr) stmt(s ast.Stmt) {
 		for _, a := range x.Call.Args {
 			t.ev(a)
 		}
+		t.detViolation("go", x.Pos(), "go statement")
 		t.V.note("go statement: spawned goroutine assumed not to interfere (" + t.u.Key + ")")
 	case *ast.SendStmt:
 		t.ev(x.Chan)
 		t.ev(x.Value)
 	case *ast.SelectStmt:
+		t.detViolation("select", x.Pos(), "select statement")
 		t.selectStmt(x)
 	case *ast.EmptyStmt:
 	default:
@@ -649,8 +651,10 @@ func (t *tr) rangeStmt(x *ast.RangeStmt) {
 		}
 	case *types.Map:
 		kind = "map"
+		t.detViolation("range-map", x.Pos(), "iteration over a map (order is unspecified)")
 	case *types.Chan:
 		kind = "chan"
+		t.detViolation("recv", x.Pos(), "range over a channel")
 	case *types.Pointer:
 		if _, ok := u.Elem().Underlying().(*types.Array); ok {
 			kind = "seq"
